@@ -173,6 +173,23 @@ class FlowFields(ImageBatch):
             )
         return cls._torch_function_result(func, data, grid, axes)
 
+    @classmethod
+    def from_images(cls: Type[TFlowFields], images: Sequence[Image]) -> TFlowFields:
+        r"""Create batch of flow fields from sequence of flow fields."""
+        axes = next((image.axes() for image in images if isinstance(image, FlowField)), None)
+        if axes is not None:
+            images = [im.axes(axes) if isinstance(im, FlowField) else im for im in images]
+        batch = super().from_images(images)
+        if axes is not None and batch._axes is not axes:
+            batch = cls(batch.tensor(), batch.grids(), axes)
+        return batch
+
+    def append(self: TFlowFields, other: ImageBatch) -> TFlowFields:
+        r"""Append data from another batch of flow fields to data of this batch."""
+        if isinstance(other, FlowFields):
+            other = other.axes(self._axes)
+        return super().append(other)
+
     @overload
     def __getitem__(self: TFlowFields, index: int) -> FlowField:
         ...
